@@ -11,7 +11,7 @@ From Coq Require Import ZArith List Bool Sorted.
 From Low Require Import Lib.Bits Lib.BitSeq Model.BuilderOps Model.BitmapOf Spec.OfSpec
   Proofs.OfProofs Proofs.OfInspect Proofs.OfRoundTrip Proofs.BuilderProofs
   Model.BitmapMask Spec.MaskSpec Proofs.MaskProofs Model.BitmapFmt Spec.FmtSpec Proofs.FmtProofs
-  Model.Rank Model.BitmapNext Spec.OfQuerySpec Proofs.OfCompose.
+  Model.Rank Model.BitmapNext Spec.OfQuerySpec Proofs.OfCompose Proofs.OfTotal.
 Import ListNotations.
 Open Scope Z_scope.
 
@@ -277,6 +277,29 @@ Theorem C12_Builder_query : forall n ops,
 Proof. exact Builder_query. Qed.
 Print Assumptions C12_Builder_query.
 
+(** * widening: Of and OfMany on EVERY input *)
+(** no hypothesis on the list at all (unsorted, duplicates, negative positions): Of sizes the result from n and
+    the LAST element; it panics exactly when some position lies outside those bits, and otherwise returns
+    ceil(max(n, last+1, 0)/64) words whose 1-bits are exactly the set of listed positions *)
+Theorem C12_Of_total : forall ps opt,
+  if of_fits ps opt then exists r, Of ps opt = Some r /\ spec_Of ps opt r else Of ps opt = None.
+Proof. exact Of_total. Qed.
+Print Assumptions C12_Of_total.
+
+(** OfMany on every segment list: the same statement about the shifted concatenation and the sum of sizes
+    (positions >= their segment's size, colliding or overtaking positions, negative sizes included) *)
+Theorem C12_OfMany_total : forall subs sizes, length subs = length sizes ->
+  if of_fits (shifted subs sizes 0) (Some (total sizes))
+  then exists r, OfMany subs sizes = Some r /\ spec_OfMany subs sizes r
+  else OfMany subs sizes = None.
+Proof. exact OfMany_total. Qed.
+Print Assumptions C12_OfMany_total.
+
+(** the boolean checker used by the run accepts only what the statement allows *)
+Theorem C12_Of_any_checker : forall ps opt o, spec_Of_any_ok ps opt o = true -> spec_Of_any ps opt o.
+Proof. exact spec_Of_any_ok_sound. Qed.
+Print Assumptions C12_Of_any_checker.
+
 (** * non-vacuity *)
 (** Of: positions at 63/64/65 and a gap of more than 3 words, n smaller than last+1 *)
 Example C12_Of_nonvacuous :
@@ -356,4 +379,14 @@ Example C12_query_nonvacuous :
   Rank128 [2^63 + 1; 1; 2^62] (IndexRank128 [2^63 + 1; 1; 2^62]) 190 = Some (3, 1) /\
   NextOne [2^63 + 1; 1; 2^62] 65 192 = Some 190 /\ PrevOne [2^63 + 1; 1; 2^62] 65 190 = Some (-1) /\
   spec_query [0; 63; 64; 190] 65 192 = ((3, 0), (3, 0), 190, 190).
+Proof. vm_compute. intuition congruence. Qed.
+
+(** Of on any input: unsorted with a small last element (65 is outside the single word sized from last = 3: panic),
+    unsorted but covered by n, a negative position *)
+Example C12_Of_total_nonvacuous :
+  of_fits [65; 3] None = false /\ Of [65; 3] None = None /\
+  of_fits [65; 3] (Some 66) = true /\ Of [65; 3] (Some 66) = Some [8; 2] /\
+  of_fits [5; -1] None = false /\ Of [5; -1] None = None /\
+  of_fits [70; 2; 70; 64] None = true /\ Of [70; 2; 70; 64] None = Some [4; 65] /\
+  OfMany [[0; 9]; [1]] [4; 60] = Some [2^9 + 2^5 + 1] /\ OfMany [[0; 200]; [1]] [4; 60] = None.
 Proof. vm_compute. intuition congruence. Qed.
